@@ -192,7 +192,7 @@ impl BitFont {
         res
     }
 
-    fn load_plain_font(font_name: impl Into<String>, data: &[u8]) -> EngineResult<Self> {
+    pub(crate) fn load_plain_font(font_name: impl Into<String>, data: &[u8]) -> EngineResult<Self> {
         if data.len() % 256 != 0 {
             return Err(FontError::UnknownFontFormat(data.len()).into());
         }
